@@ -34,7 +34,7 @@ META = {
                           'label_on_bottom', 'label_on_top'],
     'shards': {'quick': 16, 'thorough': 16},
     'exhaustive': {'quick': 'all 682 boolean tables <= 3x3',
-                   'thorough': 'all boolean tables <= 3x3, 3x4, 4x3'},
+                   'thorough': 'all boolean tables <= 3x3, 3x4, 4x3, 4x4'},
     'assumptions': ['labels are read through Concept.objects/.properties/.atoms'],
 }
 
